@@ -108,6 +108,7 @@ def random_cut_case(rng, max_heavy, kinds=('$', '><'), max_parts=6, mol_kw=None,
     rng.shuffle(items)
     smiles = M.molecule_smiles(rng, g)
     ctor = ctor or rng.choice(['string', 'string', 'string', 'from_graph', 'from_fragment_dicts'])
+    alt = [G.to_string(M.base_to_ast(rng, case['base'])[0]) for _ in range(2)] if len(case['base']) >= 3 else []
     base_nodes = list(case['base'].nodes)
     rng.shuffle(base_nodes)
     feats = cut_features(g, part, case)
@@ -116,7 +117,7 @@ def random_cut_case(rng, max_heavy, kinds=('$', '><'), max_parts=6, mol_kw=None,
                 frag_string='{' + ','.join('#%s=%s' % kv for kv in items) + '}',
                 base_graph={'nodes': [[n, case['base'].nodes[n]['fragname']] for n in base_nodes],
                             'edges': [[a, b, d['order']] for a, b, d in case['base'].edges(data=True)]},
-                ctor=ctor, single='{[#M]}.{#M=%s}' % smiles, smiles=smiles, truth=truth_to_json(truth),
+                ctor=ctor, alt_base_strings=alt, single='{[#M]}.{#M=%s}' % smiles, smiles=smiles, truth=truth_to_json(truth),
                 features=sorted(feats), nheavy=len(g), nfrag=nparts, ncuts=len(case['cuts']),
                 frag_atoms={name: atoms for name, atoms in case['atom_orders'].items()},
                 base_order=pre)
